@@ -9,7 +9,7 @@
    second write of a record larger than the buffer, a record cut inside) — and every such image
    recovers all earlier operations and the failed one entirely or not at all (C03). *)
 From BC Require Import Store.Engine Store.Log Store.Cons Store.Inv Store.Refine Store.Merge Store.Theorems
-  Store.Codec Store.CodecProofs Store.Crash Store.CrashScript Store.CrashMerge.
+  Store.Codec Store.CodecProofs Store.Crash Store.CrashScript Store.CrashMerge Store.FaultUnlink.
 From Coq Require Import Lia.
 Open Scope N_scope.
 
@@ -71,6 +71,27 @@ Theorem C20_fault_at_call_boundary : forall c ops1 o s0 n,
     (img_ok fn (abs s1) \/ img_ok fn (abs (fst (fst (step c s1 o))))).
 Proof. exact fault_then_restart. Qed.
 Print Assumptions C20_fault_at_call_boundary.
+
+(* 5. The removal loop of a merge with a failing unlink (the defect the thorough sweep found, repaired
+      as e043e9c).  Later merges rest on "a file that holds records has a statistics row", because the
+      selection is closed downwards over the files that have rows.  With the repaired order (unlink
+      first, forget the row afterwards) that invariant survives a failure of any unlink ... *)
+Theorem C20_failed_unlink_keeps_rows : forall d x sel j, sorted d -> rows_cover d x ->
+  let '(d', x') := failed_unlink false d x sel j in rows_cover d' x'.
+Proof. exact unlink_first_keeps_rows. Qed.
+Print Assumptions C20_failed_unlink_keeps_rows.
+
+Theorem C20_reachable_states_have_rows : forall s, Inv s -> rows_cover (s_dir s) (s_stats s).
+Proof. exact inv_rows_cover. Qed.
+Print Assumptions C20_reachable_states_have_rows.
+
+(* ... with the pinned order (row dropped first) it does not: file 0 holds a record and has no row,
+   so the next pass can select file 1 (the tombstone) without file 0 (the value). *)
+Theorem C20_row_first_refuted :
+  let '(d', x') := failed_unlink true ex_dir ex_stats [0; 1] 0 in
+  has_file (log_of_dir d') 0 = true /\ sget x' 0 = None /\ sget x' 1 <> None.
+Proof. exact row_first_loses_a_file. Qed.
+Print Assumptions C20_row_first_refuted.
 
 (* Non-vacuity of 4: the hypotheses hold for a concrete script, and a failing second SET (cut after 9
    bytes of its record) leaves such an image. *)
